@@ -20,7 +20,7 @@ Lines == ndJsonDeserialize(IOEnv.TRACE_FILE)
 VARIABLE l
 
 Modelled == {"create", "attach", "detach", "detach_self", "replace_prop", "replace_kids", "replace_bad",
-             "replace_with", "replace_with_none", "duplicate", "texec"}
+             "replace_with", "replace_with_none", "duplicate", "texec", "tvisit"}
 
 Raw(L, objs, reg) == [obj |-> objs, reg |-> reg]
 WithCids(S0, objs) ==
